@@ -876,7 +876,7 @@ func (k *c15Checker) restore() {
 
 var (
 	c15Repls      = []string{"", "AMBIG", "MAJ", "GAP", "Z", "ZZ"}
-	c15ReplsExtra = []string{"", "AMBIG", "MAJ", "GAP", "Z", "ZZ", "-", "A"}
+	c15ReplsExtra = []string{"", "AMBIG", "MAJ", "GAP", "Z", "ZZ", "-", "A", "z", "n", "x", "maj"}
 )
 
 // maskAll runs every Mask configuration of the bound on the loaded input.
@@ -1149,7 +1149,7 @@ func init() {
 			"Inputs (n rows x L columns, all alignments of the shape over the symbol set): 1x1, 1x2, 1x3, 2x1, 2x2, 3x1 and (Mask only) 1x4 over {A,C,-,N,.} (nt) / {A,C,-,X,.} (aa); " +
 			"2x3, 3x2, 4x1 and (MaskOccurences/MaskUnique only) 3x3, 4x2, 5x1 over {A,C,-,N} / {A,C,-,X}; Mask on 3x3 and 2x4 over {A,C,-} in the quick tier and over the four symbols in the thorough tier; " +
 			"thorough adds Mask on 4x2 and MaskOccurences/MaskUnique on 5x2 over the four symbols; plus the alignment without rows and 1, 2, 3 rows without columns. " +
-			"Mask: on each input every combination of reference in {none, each row, a name no row has} x replacement in {\"\", AMBIG, MAJ, GAP, Z, ZZ} (also - and A on 1x1 .. 3x1 and the shapes without cells) x nogap x noref x " +
+			"Mask: on each input every combination of reference in {none, each row, a name no row has} x replacement in {\"\", AMBIG, MAJ, GAP, Z, ZZ} (also -, A, z, n, x and maj on 1x1 .. 3x1 and the shapes without cells) x nogap x noref x " +
 			"start in -1..L+1 x length in {-1..L+2, MaxInt}. " +
 			"MaskOccurences: every reference x replacement as above x threshold in -1..n+1; MaskUnique: every reference x replacement. " +
 			"After each call every cell, every name, the row order, the row lengths and Length() are compared with an oracle that classifies each cell as must-be-replaced / must-be-kept / undetermined from the statement, " +
